@@ -1557,8 +1557,155 @@ def fam_write(name):
     return Family('write/' + name, path, bounds=dict(state='as read/*'))
 
 
+
+# ---- (C) a read racing a write: "at any moment" --------------------------
+
+def doc_neq(a, b):
+    """z3 Bool / bool: two response documents differ (structure is concrete,
+    leaves may be symbolic)"""
+    if isinstance(a, dict) and isinstance(b, dict):
+        if set(a) != set(b):
+            return True
+        parts = [doc_neq(a[k], b[k]) for k in a]
+    elif isinstance(a, (list, tuple)) and isinstance(b, (list, tuple)):
+        if len(a) != len(b):
+            return True
+        parts = [doc_neq(x, y) for x, y in zip(a, b)]
+    else:
+        if isinstance(a, symex.Sym) or isinstance(b, symex.Sym):
+            return to_z3(a) != to_z3(b)
+        return a != b
+    if any(p is True for p in parts):
+        return True
+    parts = [p for p in parts if p is not False]
+    return Or(*parts) if parts else False
+
+
+def _race_reqs():
+    from checks.conc import Req
+    from engine.scenario import U, CONS
+    P = U(1)
+    reads = {
+        'provider-usages': '/resource_providers/%s/usages' % P,
+        'provider-inventories': '/resource_providers/%s/inventories' % P,
+        'provider-allocations': '/resource_providers/%s/allocations' % P,
+        'provider-traits': '/resource_providers/%s/traits' % P,
+        'provider-aggregates': '/resource_providers/%s/aggregates' % P,
+        'provider': '/resource_providers/%s' % P,
+        'consumer-allocations': '/allocations/' + CONS(1),
+        'project-usages': '/usages?project_id=proj',
+    }
+
+    def read(name):
+        return Req('get_' + name, lambda ctx, w: app.call(
+            'GET', reads[name], version='1.39'))
+    writes = {
+        'put_alloc': lambda: Req('put_alloc', lambda ctx, w: app.call(
+            'PUT', '/allocations/' + CONS(2), {
+                'allocations': {P: {'resources': {
+                    'VCPU': ctx.int('amt', 1)}}},
+                'project_id': 'proj', 'user_id': 'user',
+                'consumer_generation': None, 'consumer_type': 'INSTANCE'},
+            version='1.39')),
+        'put_alloc_existing': lambda: Req(
+            'put_alloc_existing', lambda ctx, w: app.call(
+                'PUT', '/allocations/' + CONS(1), {
+                    'allocations': {P: {'resources': {
+                        'VCPU': ctx.int('amt', 1)}}},
+                    'project_id': 'proj', 'user_id': 'user',
+                    'consumer_generation': ctx.int('cgen', 0),
+                    'consumer_type': 'INSTANCE'}, version='1.39')),
+        'put_inventories': lambda: Req(
+            'put_inventories', lambda ctx, w: app.call(
+                'PUT', '/resource_providers/%s/inventories' % P, {
+                    'resource_provider_generation': ctx.int('pgen', 0),
+                    'inventories': {'VCPU': {
+                        'total': ctx.int('new_total', 1)}}},
+                version='1.39')),
+        'put_traits': lambda: Req('put_traits', lambda ctx, w: app.call(
+            'PUT', '/resource_providers/%s/traits' % P, {
+                'resource_provider_generation': ctx.int('pgen', 0),
+                'traits': ['CUSTOM_T1']}, version='1.39')),
+        'put_aggregates': lambda: Req(
+            'put_aggregates', lambda ctx, w: app.call(
+                'PUT', '/resource_providers/%s/aggregates' % P, {
+                    'resource_provider_generation': ctx.int('pgen', 0),
+                    'aggregates': [AGG(1)]}, version='1.39')),
+    }
+    return read, writes, sorted(reads)
+
+
+def _race_world(ctx):
+    from engine.scenario import World
+    w = World(ctx)
+    w.rc('VCPU')
+    w.trait('CUSTOM_T1')
+    w.project('proj')
+    w.user('user')
+    ct = w.consumer_type('INSTANCE')
+    w.provider(1, generation=ctx.int('pgen', 0))
+    w.inventory(1, 'VCPU', present=True, total=ctx.int('total', 1),
+                reserved=0, min_unit=1, max_unit=ctx.int('max', 1),
+                step_size=1, allocation_ratio=1.0)
+    w.allocation(1, 1, 'VCPU', present=True, used=ctx.int('used', 1))
+    w.consumer(1, present=True, generation=ctx.int('cgen', 0), ctype=ct)
+    return w
+
+
+def fam_read_during_write(rname, wname):
+    """One GET racing one write, every interleaving at transaction
+    granularity: the GET's answer must be the answer it gets before the
+    write or the one it gets after it - a report that equals the result of
+    applying a prefix of the successful requests ("at any moment")."""
+    from checks import conc, c08
+
+    def path(ctx):
+        app.setup()
+        read, writes, _ = _race_reqs()
+        reqs = [read(rname), writes[wname]()]
+        pre, results, final, sched, _w = conc.run_concurrent(
+            ctx, _race_world, reqs)
+        got = results[0]
+        before, _ = conc.run_serial(ctx, _race_world, reqs, (0, 1))
+        after, _ = conc.run_serial(ctx, _race_world, reqs, (1, 0))
+        alts = []
+        for ref in (before[0], after[0]):
+            if ref.status != got.status:
+                continue
+            d = doc_neq(got.json, ref.json)
+            if d is False:
+                alts = None
+                break
+            if d is not True:
+                alts.append(Not(d))
+        if alts is not None:
+            obligation(ctx, 'read-is-a-moment',
+                       zbool(Not(Or(*alts))) if alts else zbool(True),
+                       'GET %s racing %s: the answer (%d) equals neither '
+                       'the answer before the write nor the one after it'
+                       % (rname, wname, got.status),
+                       sig=c08.schedule_sig(reqs, sched.trace))
+        return finish(ctx, '%d,%d' % (got.status, results[1].status))
+    return Family('race/get_%s+%s' % (rname, wname), path, bounds=dict(
+        schedules='every interleaving at transaction granularity',
+        state='one provider with VCPU inventory, one consumer holding some; '
+        'generations, totals and amounts symbolic'))
+
+
 def families(tier):
-    return [fam_read(n) for n in READS] + [fam_write(n) for n in WRITES]
+    fams = [fam_read(n) for n in READS] + [fam_write(n) for n in WRITES]
+    _r, writes, reads = _race_reqs()
+    pairs = [('provider-usages', 'put_alloc'),
+             ('provider-inventories', 'put_inventories'),
+             ('provider-allocations', 'put_alloc'),
+             ('provider-traits', 'put_traits'),
+             ('provider-aggregates', 'put_aggregates'),
+             ('consumer-allocations', 'put_alloc_existing'),
+             ('project-usages', 'put_alloc'),
+             ('provider', 'put_inventories')]
+    if tier == 'thorough':
+        pairs = [(r, w) for r in reads for w in sorted(writes)]
+    return fams + [fam_read_during_write(r, w) for r, w in pairs]
 
 
 def tv_post(tier):
